@@ -5,6 +5,7 @@ Scenario `ics20`: op-line parser, observation renderer and property monitors
 (C11, C12, C18) for the cw20-ics20 model (app mode: contract + bank + two cw20 tokens).
 -/
 -- SCENARIO ics20 Ics20.scen
+-- SCENARIO ics20wide Ics20.scen
 namespace CwPlus.Driver.Ics20
 open CwPlus Wire Driver CwPlus.Ics20
 
@@ -19,6 +20,8 @@ structure MState where
   tokens : List String := []
   denoms : List String := []
   chans : List String := []
+  /-- header `extra=` (`ics20wide`): further addresses probed by the point queries `pallow` -/
+  extra : List String := []
 
 def addrArg (s : String) : AddrArg := let p := parseAddr s; ⟨p.1, p.2⟩
 
@@ -97,7 +100,7 @@ def obsOf (m : MState) : Args :=
     | .ok (t, g, gv) => (s!"{t}/{optNatStr g}", if gv == "" then "-" else gv)
     | .error _ => ("?", "?")
   let allow := (Paginate.sortedEntries Paginate.strLt s.allow).map fun p => s!"{p.1}|{optNatStr p.2}"
-  let pallow := (m.tokens ++ m.pool).map fun a =>
+  let pallow := (m.tokens ++ m.pool ++ m.extra).map fun a =>
     match queryAllowed s ⟨true, a⟩ with
     | .ok (b, g) => s!"{a}|{if b then 1 else 0}|{optNatStr g}"
     | .error _ => s!"{a}|?"
@@ -481,7 +484,7 @@ def monitorOp (mu : Mon) (prev : Args) (toks : List String) (implOk : Bool) (out
     (mu, f11 ++ f12 ++ f18)
 
 def scen : Scen MState Mon where
-  init h := { w := initWorld h, pool := h.list "pool", tokens := h.list "tokens", denoms := h.list "denoms", chans := h.list "chans" }
+  init h := { w := initWorld h, pool := h.list "pool", tokens := h.list "tokens", denoms := h.list "denoms", chans := h.list "chans", extra := h.list "extra" }
   step := stepOp
   obs := obsOf
   monInit h := { chans := h.list "chans", pool := h.list "pool", denoms := h.list "denoms", tokens := h.list "tokens" }
